@@ -1,7 +1,8 @@
 #!/bin/bash
-# tools/intake3.sh <seed-dir-name under /tmp/wt/out> <property> "<needs>" : confirm a round-3 sub-agent seed, file it, test it
+# tools/intake3.sh <seed-dir (absolute, holds patch.diff demo.py notes.md)> <property> "<needs>" [also-check ...]
+# confirm a round-3 sub-agent seed in a scratch worktree, file it under seeded/<basename>, test it against the check(s)
 set -e
-name=$1; prop=$2; needs=$3
+dir=$1; name=$(basename $dir); prop=$2; needs=$3
 cd /verif
-python3 tools/confirm_seed.py "$name" "/tmp/wt/out/$name" "$prop" "$needs" 2>&1 | tail -1
+python3 tools/confirm_seed.py "$name" "$dir" "$prop" "$needs" 2>&1 | tail -1
 if [ -d seeded/$name ]; then python3 tools/test_seeds.py "$name" 2>&1 | grep "^$name" | cut -c1-300; fi
